@@ -29,6 +29,7 @@
 // CORR: ifft / irfft / iscola / stft / istft calls replayed by the Lean model (Model/Ifft.lean) at Float (the model is stateless:
 //       results obtained after rejected calls go through the same correspondence).
 #include "common.hpp"
+#include <limits>
 #include <thread>
 #include <atomic>
 #include <algorithm>
@@ -380,6 +381,31 @@ static void ifft_sweep_body(int n, uint64_t seed, const IfftCfg& cfg, Res& R) {
         R.stats[std::string("ifft_class_") + CLS_NAME[cls]]++;
         if (cls == GAUSS && n <= 6) R.samples.push_back(wit("ifft(fft(x))", n, cls, seed, diff_l2(y, x), 64 * ld(n) * EPSD * nx, small));
     }
+    // top of the double range (seed C02-G: the 1/n scaling moved behind the forward transform overflows for n |X| > DBL_MAX):
+    // an impulse of amplitude DBL_MAX/64 has a finite spectrum (|X[k]| = |A|) and a finite inverse, so ifft(fft(x)) must
+    // reproduce it. Lengths with a prime factor > 41 go through the Bluestein leaf, whose top-of-range behaviour is the
+    // KNOWN FINDING of C01 (cztleaf-top-of-range-nonfinite): they are counted, not judged here.
+    {
+        int m = n, maxp = 1;
+        for (int q = 2; (long long)q * q <= m; ++q) while (m % q == 0) { maxp = std::max(maxp, q); m /= q; }
+        if (m > 1) maxp = std::max(maxp, m);
+        if (maxp <= 41) {
+            vh::Rng r3(seed * 0x9e3779b97f4a7c15ULL + uint64_t(n) * 977 + 5);
+            const double A = std::numeric_limits<double>::max() / 64;
+            arr_cmplx x(n);
+            const int p = (n % 3 == 0) ? n - 1 : r3.range(0, n - 1);
+            x[p] = cmplx_t{r3.coin() ? A : -A, A * r3.sym()};
+            const bool use_plan = n % 2 == 0;
+            const arr_cmplx X = use_plan ? fplan(x) : fft(x);
+            if (all_finite(X)) {
+                const arr_cmplx y = use_plan ? plan(X) : ifft(X);
+                judge(R, "C02:ifft-roundtrip", "ifft_fft_top_of_range", diff_l2(y, x), l2(x), 64 * ld(n) * EPSD, all_finite(y),
+                      wit(use_plan ? "IfftPlan(n)(FftPlan(n)(x)), impulse of amplitude DBL_MAX/64" : "ifft(fft(x)), impulse of amplitude DBL_MAX/64", n, IMPULSE, seed,
+                          diff_l2(y, x), 64 * ld(n) * EPSD * l2(x), ",\"position\":" + std::to_string(p) + ",\"re\":" + vh::jnum(x[p].re) + ",\"im\":" + vh::jnum(x[p].im)));
+                R.stats["ifft_top_of_range_impulse"]++;
+            } else R.stats["ifft_top_of_range_forward_nonfinite"]++;
+        } else R.stats["ifft_top_of_range_skipped_bluestein_leaf"]++;
+    }
     // plan object reused after other inputs: an earlier input again (stale state across calls)
     {
         vh::Rng r2(seed ^ (uint64_t(n) << 21));
@@ -511,6 +537,38 @@ static void irfft_sweep_body(int n, uint64_t seed, const IfftCfg& cfg, Res& R) {
             if (e != "ERR") R.fails.push_back({"C02:irfft-wrong-size-accepted", "{\"entry\":\"irfft(X, n)\",\"n\":" + std::to_string(n) + ",\"X_size\":" + std::to_string(sz) + "}"});
             if (n <= 16) R.corr.push_back({"irfft " + std::to_string(n) + " " + vh::hxs(Z), e.empty() ? "OK" : "ERR"});
         }
+    }
+    // top of the double range (as for ifft, seed C02-G): a real impulse of amplitude DBL_MAX/64 at lengths without a Bluestein leaf
+    // (n and n/2: the packed real transform runs a complex plan of half the length)
+    {
+        int maxp = 1;
+        for (int m0 : {n, h}) {
+            int m = m0;
+            for (int q = 2; (long long)q * q <= m; ++q) while (m % q == 0) { maxp = std::max(maxp, q); m /= q; }
+            if (m > 1) maxp = std::max(maxp, m);
+        }
+        if (maxp <= 41) {
+            vh::Rng r3(seed * 0x9e3779b97f4a7c15ULL + uint64_t(n) * 991 + 7);
+            const double A = std::numeric_limits<double>::max() / 64;
+            arr_real x(n);
+            const int p = (n % 3 == 0) ? n - 1 : r3.range(0, n - 1);
+            x[p] = r3.coin() ? A : -A;
+            const arr_cmplx X = rfft(x);
+            if (all_finite(X)) {
+                const bool use_plan = h % 2 == 0;
+                const arr_real y = use_plan ? plan(X) : irfft(X, n);
+                const arr_real yh = use_plan ? irfft(arr_cmplx(X.slice(0, h + 1)), n) : plan(arr_cmplx(X.slice(0, h + 1)));
+                const std::string ex = ",\"position\":" + std::to_string(p) + ",\"value\":" + vh::jnum(x[p]);
+                if (y.size() == n && yh.size() == n) {
+                    judge(R, "C02:irfft-roundtrip", "irfft_rfft_top_of_range", diff_l2(y, x), l2(x), 64 * ld(n) * EPSD, all_finite(y),
+                          wit(use_plan ? "IfftPlanR(n)(rfft(x)), impulse of amplitude DBL_MAX/64" : "irfft(rfft(x), n), impulse of amplitude DBL_MAX/64", n, IMPULSE, seed,
+                              diff_l2(y, x), 64 * ld(n) * EPSD * l2(x), ex));
+                    judge(R, "C02:irfft-roundtrip-half", "irfft_rfft_top_of_range", diff_l2(yh, x), l2(x), 64 * ld(n) * EPSD, all_finite(yh),
+                          wit("irfft(rfft(x)[0..n/2], n), impulse of amplitude DBL_MAX/64", n, IMPULSE, seed, diff_l2(yh, x), 64 * ld(n) * EPSD * l2(x), ex));
+                } else R.fails.push_back({"C02:irfft-size", wit("irfft(X, n)", n, IMPULSE, seed, y.size(), n, ex)});
+                R.stats["irfft_top_of_range_impulse"]++;
+            } else R.stats["irfft_top_of_range_forward_nonfinite"]++;
+        } else R.stats["irfft_top_of_range_skipped_bluestein_leaf"]++;
     }
     if (cfg.corr_digest) {
         const uint64_t s = seed * 1000003ULL + uint64_t(n) + 11;
